@@ -447,4 +447,91 @@ theorem free_enabled {todos s log t th} (hI : Inv todos s log) (hh : s.holder = 
   | nil => exact absurd rfl hw
   | cons m rest => simp [hh]
 
+/-! ## a measure that every enabled step decreases -/
+
+def rank : PC → Nat
+  | .idle => 0 | .entered => 1 | .reserved => 2 | .encoded => 3
+
+/-- own steps thread `th` still has to take: four per packet, minus those taken
+for the packet in hand -/
+def thWork (th : Th) : Nat := 4 * th.todo.length - rank th.pc
+
+/-- steps left until every packet is delivered -/
+def work (s : St) : Nat := (s.ths.map thWork).sum
+
+theorem sum_set_dec (l : List Th) : ∀ (t : Nat) (a x : Th), l[t]? = some a → thWork x + 1 = thWork a →
+    ((l.set t x).map thWork).sum + 1 = (l.map thWork).sum := by
+  induction l with
+  | nil => intro t a x h; cases h
+  | cons b l ih =>
+    intro t a x h hx
+    cases t with
+    | zero =>
+      simp only [List.getElem?_cons_zero, Option.some.injEq] at h
+      subst h
+      simp only [List.set_cons_zero, List.map_cons, List.sum_cons]
+      omega
+    | succ t =>
+      simp only [List.getElem?_cons_succ] at h
+      have := ih t a x h hx
+      simp only [List.set_cons_succ, List.map_cons, List.sum_cons]
+      omega
+
+theorem work_step {todos s log t s'} (hI : Inv todos s log) (h : step true s t = some s') :
+    work s' + 1 = work s := by
+  obtain ⟨th, hth, hc⟩ := step_cases h
+  have hok := hI.ths t th hth
+  rcases hc with ⟨m, rest, hpc, htodo, _, rfl⟩ | ⟨hpc, rfl⟩ | ⟨m, rest, hpc, htodo, rfl⟩ |
+    ⟨m, rest, hpc, htodo, rfl⟩
+  · apply sum_set_dec _ _ _ _ hth
+    simp [thWork, hpc, htodo, rank]; omega
+  · apply sum_set_dec _ _ _ _ hth
+    have := hok.work (by rw [hpc]; intro c; cases c)
+    cases htd : th.todo with
+    | nil => exact absurd htd this
+    | cons m rest => simp [thWork, hpc, htd, rank]; omega
+  · apply sum_set_dec _ _ _ _ hth
+    simp [thWork, hpc, htodo, rank]; omega
+  · apply sum_set_dec _ _ _ _ hth
+    simp [thWork, hpc, htodo, rank]; omega
+
+theorem work_init (todos : List (List (List UInt8))) :
+    work (init todos) = 4 * (todos.map List.length).sum := by
+  simp only [work, init, List.map_map]
+  induction todos with
+  | nil => rfl
+  | cons l ls ih =>
+    simp only [List.map_cons, List.sum_cons, ih, Function.comp, thWork, rank]
+    omega
+
+theorem le_sum_of_mem : ∀ (l : List Nat) (a : Nat), a ∈ l → a ≤ l.sum := by
+  intro l
+  induction l with
+  | nil => intro a h; cases h
+  | cons b l ih =>
+    intro a h
+    simp only [List.sum_cons]
+    rcases List.mem_cons.mp h with h | h
+    · omega
+    · have := ih a h; omega
+
+/-- under the invariant no work left means every list is empty -/
+theorem work_zero {todos s log} (hI : Inv todos s log) (h : work s = 0) :
+    ∀ th ∈ s.ths, th.todo = [] := by
+  intro th hm
+  obtain ⟨t, ht, rfl⟩ := List.getElem_of_mem hm
+  have hth : s.ths[t]? = some s.ths[t] := List.getElem?_eq_getElem ht
+  have hok := hI.ths t _ hth
+  have h0 : thWork s.ths[t] = 0 := by
+    have : thWork s.ths[t] ∈ s.ths.map thWork := List.mem_map.mpr ⟨_, hm, rfl⟩
+    have := le_sum_of_mem _ _ this
+    unfold work at h; omega
+  cases htd : s.ths[t].todo with
+  | nil => rfl
+  | cons m rest =>
+    exfalso
+    simp only [thWork, htd, List.length_cons] at h0
+    have : rank s.ths[t].pc ≤ 3 := by cases s.ths[t].pc <;> simp [rank]
+    omega
+
 end Mqtt.Proofs.WriteLock
